@@ -1,6 +1,7 @@
 (* C14 — Client-maintained referrers indexes lose no update under concurrency. *)
-From Oras Require Import Base.Prelude Model.Referrers Proofs.Referrers Model.Merge
-  Proofs.Merge Proofs.MergeLin Proofs.MergeThm Model.Delivery Proofs.Delivery.
+From Oras Require Import Base.Prelude Generated.GC14 Model.Referrers Proofs.Referrers Model.Merge
+  Proofs.Merge Proofs.MergeLin Proofs.MergeThm Model.Delivery Proofs.Delivery Model.Live Proofs.Live
+  Model.MergeFine Proofs.MergeFine Proofs.MergeFineWake Proofs.MergeFine2 Proofs.MergeFine3 Proofs.MergeFineProg.
 
 (* applyReferrerChanges (position map, tombstones, hint) = set semantics on the
    de-duplicated, non-empty old list; survivors keep their order, additions are
@@ -64,6 +65,19 @@ Theorem C14_single_main : forall sg r0 st0 tr s,
 Proof. exact single_main. Qed.
 Print Assumptions C14_single_main.
 
+(* "exactly the live manifests", concurrent: for EVERY interleaving of pushes and deletes of
+   referrers of one subject through one Repository (any number of callers, any batching, any
+   pre-existing index consistent with the live set, injected failures of the index
+   exchanges) in which operations on the SAME manifest do not overlap (Model/Live.v: the
+   manifest PUT precedes, the manifest DELETE follows the index update), at every instant:
+   a manifest that no operation is working on, and that no failed operation has touched, is
+   listed iff it is in the registry.  Without the no-overlap guard: C14_listing_is_live_refuted. *)
+Theorem C14_listing_is_live : forall sg r0 st0 live0 tr m,
+  tracks (r0, live0) -> lrun sg (linit r0 st0 live0) tr = Some m ->
+  forall k, ~ In k (map ent_key (l_inflight m)) -> ~ In k (l_taint m) -> consistent m k.
+Proof. exact listing_is_live. Qed.
+Print Assumptions C14_listing_is_live.
+
 (* KNOWN FINDING same-manifest-race: the clause "exactly the live manifests" does not hold
    when a push and a delete of the SAME manifest overlap: both calls return nil, the
    manifest is gone, the index still lists it (C14_no_lost_update still holds: the index is
@@ -110,9 +124,11 @@ Print Assumptions C14_bounded_completion.
 
 (* batches linearise: for every trace (interleaving, pre-existing index r0 with
    duplicates / empty entries, injected failures) ending in a quiescent state, the
-   calls that returned nil or a referrers-index-delete error — and only those — took
-   effect, each once, in the order [lin], and the index under the tag is, as a set,
-   the fold of their changes over the initial index *)
+   calls that returned nil or a referrers-index-delete error, and the calls whose batch's
+   PUT took effect but was answered with an error (RLost: they see the plain error; see
+   C14_lost_response / C14_plain_error_no_effect) — and only those — took effect, each
+   once, in the order [lin], and the index under the tag is, as a set, the fold of their
+   changes over the initial index *)
 Theorem C14_no_lost_update : forall sg r0 st0 tr s,
   run sg (init r0 st0) tr = Some s -> quiescent s ->
   NoDup (lin s) /\
@@ -166,18 +182,41 @@ Print Assumptions C14_gc.
 
 Theorem C14_gc_clean : forall r0 st0 tr s,
   run false (init r0 st0) tr = Some s ->
-  forallb (fun e => negb (del_failed e)) tr = true ->
+  forallb gc_ok tr = true ->
   (forall t, is_main (pcs s t) = false) ->
   forall x, In x (store s) -> reg s = Some x \/ (In x st0 /\ r0 <> Some x).
 Proof. exact gc_clean. Qed.
 Print Assumptions C14_gc_clean.
 
-(* ... and with failed deletions: at most one more dangling index per failed deletion *)
+(* ... and with failed deletions: exactly one more dangling index per failed deletion
+   (a lost PUT response leaves the old index behind as well: excluded here, see C14_gc) *)
 Theorem C14_gc_count : forall tr s s',
-  run false s tr = Some s' ->
+  run false s tr = Some s' -> forallb (fun e => negb (put_lost e)) tr = true ->
   length (junk s') = (length (junk s) + length (filter del_failed tr))%nat.
 Proof. exact junk_count. Qed.
-Print Assumptions C14_gc_clean.
+Print Assumptions C14_gc_count.
+(* LOST RESPONSE of the index PUT / DELETE (EPutLost: the registry stores the new index, the
+   client sees an error; EDelLost: the registry deletes the old index, the client sees an error
+   - the index-delete error after a PUT, a plain error when the deletion WAS the update; ghost
+   result RLost, seen by the caller as the plain error RErr).
+   C14_plain_error_no_effect: with a registry that answers truthfully, a call took effect iff
+   it did NOT return a plain error.  C14_lost_response: in general, nil / index-delete error
+   => took effect (no lost update, even with lost responses); a plain error => took effect iff
+   the response of its batch's PUT was lost ("may or may not be included"). *)
+Theorem C14_plain_error_no_effect : forall sg r0 st0 tr s t r,
+  run sg (init r0 st0) tr = Some s -> forallb (fun e => negb (resp_lost e)) tr = true ->
+  (pcs s t = Ret r \/ pcs s t = Done r) ->
+  (In t (lin s) <-> seen r <> RErr).
+Proof. exact plain_error_no_effect. Qed.
+Print Assumptions C14_plain_error_no_effect.
+
+Theorem C14_lost_response : forall sg r0 st0 tr s t r,
+  run sg (init r0 st0) tr = Some s -> (pcs s t = Ret r \/ pcs s t = Done r) ->
+  (seen r <> RErr -> In t (lin s)) /\ (seen r = RErr -> (In t (lin s) <-> r = RLost)).
+Proof. exact seen_effect. Qed.
+Print Assumptions C14_lost_response.
+
+
 
 (* SetReferrersCapability: the state leaves Unknown with the first call and never
    changes afterwards; later calls fail iff they ask for the other value *)
@@ -191,6 +230,19 @@ Theorem C14_capability_error : forall s b,
 Proof. exact set_cap_error. Qed.
 Print Assumptions C14_capability_error.
 Print Assumptions C14_capability_monotone.
+
+(* the field Repository.referrersState has no writer other than that compare-and-swap
+   (regenerated from the Go sources on every run), so every detection path - ping, Referrers()
+   fallback, OCI-Subject header, push without Referrers API - obeys the theorem above *)
+Theorem C14_capability_all_paths :
+  GC14.referrersState_other = 0%Z /\
+  forall (requests : list bool),
+    match set_caps CapUnknown requests with
+    | [] => requests = []
+    | (s0, e0) :: rest => e0 = false /\ s0 <> CapUnknown /\ Forall (fun x => fst x = s0) rest
+    end.
+Proof. exact capability_all_paths. Qed.
+Print Assumptions C14_capability_all_paths.
 
 (* several referrers tags (subjects): every component of a run of the product
    system is a run of the one-tag system, so all theorems above hold per tag *)
@@ -245,6 +297,99 @@ Theorem C14_delivery_refines_complete : forall s t r tr d,
 Proof. exact delivery_refines_complete. Qed.
 Print Assumptions C14_delivery_refines_complete.
 
+(* ---- the whole protocol at CHANNEL granularity (Model/MergeFine.v): buffered-1 status channels
+   per generation, main status in the buffer, close / blocking sends in complete(), late
+   receivers, the swap as a separate lock region - interleaved with everything else ---- *)
+
+(* in every reachable state: one main caller; the main status only in the current status
+   channel and only while nobody is main; every buffered status / closed channel carries
+   the verdict of its batch; the main caller in complete() knows that verdict; Pool refcount *)
+Theorem C14_fine_structure : forall sg r0 st0 ftr f,
+  frun sg (finit r0 st0) ftr = Some f ->
+  (forall t1 t2, fmain (f_pcs f t1) = true -> fmain (f_pcs f t2) = true -> t1 = t2) /\
+  (forall g, fbuf (f_chans f g) = Some FMain -> g = f_gen f /\ forall t, fmain (f_pcs f t) = false) /\
+  (forall g r, fbuf (f_chans f g) = Some (FRes r) -> f_verdict f g = Some r) /\
+  (forall g, fclosed (f_chans f g) = true -> f_verdict f g = Some ROk) /\
+  (forall t r, fres (f_pcs f t) = Some r -> f_verdict f (f_gen f) = Some r) /\
+  (exists hs, NoDup hs /\ (forall t, In t hs <-> fholding (f_pcs f t) = true) /\
+     match f_pool f with None => hs = [] | Some rc => rc = length hs /\ hs <> [] end).
+Proof. exact fine_structure. Qed.
+Print Assumptions C14_fine_structure.
+
+(* refinement: every run of the channel-level system is simulated by a run of the system of
+   Model/Merge.v (EComplete = the moment the main caller enters complete(); channel operations
+   and the swap stutter; a caller blocked on a channel whose batch has its verdict corresponds
+   to a caller that has returned): same Pool entry, registry cell and index manifests *)
+Theorem C14_fine_simulated : forall sg r0 st0 ftr f,
+  frun sg (finit r0 st0) ftr = Some f ->
+  exists tr c, run sg (init r0 st0) tr = Some c /\ Sim f c.
+Proof. exact fine_simulated. Qed.
+Print Assumptions C14_fine_simulated.
+
+(* hence no lost update and the listing theorem at channel granularity *)
+Theorem C14_fine_no_lost_update : forall sg r0 st0 ftr f,
+  frun sg (finit r0 st0) ftr = Some f -> fquiescent f ->
+  exists tr c, run sg (init r0 st0) tr = Some c /\ quiescent c /\
+    (forall t r, f_pcs f t = FDone r <-> pcs c t = Done r) /\
+    NoDup (lin c) /\
+    (forall t, In t (lin c) <-> exists r, f_pcs f t = FDone r /\ r <> RErr) /\
+    (forall k, memb (f_reg f) k = member_after k (memb r0 k) (map (arg c) (lin c))) /\
+    NoDup (keys (list_referrers (f_reg f) 0)) /\
+    (forall k, In k (keys (list_referrers (f_reg f) 0)) <-> member_after k (memb r0 k) (map (arg c) (lin c)) = true).
+Proof. exact fine_no_lost_update. Qed.
+Print Assumptions C14_fine_no_lost_update.
+
+(* Pool.Get / release: the [pool] field of the transition system is a reference count moved by
+   pool_get / pool_put (the functions the P lines replay against syncutil.Pool: identity of the
+   pooled Merge across Get / release in lock order, including a release that waits for the
+   pool lock while a Get overtakes it); a fresh entry is a zero Merge; and in every reachable
+   state, while some caller holds the entry, Get never creates a second one *)
+Theorem C14_pool_is_refcount : forall sg s e s',
+  step sg s e = Some s' ->
+  match e with
+  | EGet _ _ => pool s' = fst (pool_get (pool s)) /\
+                (snd (pool_get (pool s)) = true ->
+                 items s' = [] /\ pending s' = [] /\ committed s' = false /\ token s' = false)
+  | EDone _ => pool s' = pool_put (pool s)
+  | _ => pool s' = pool s
+  end.
+Proof. exact pool_is_refcount. Qed.
+Print Assumptions C14_pool_is_refcount.
+
+Theorem C14_pool_shared : forall sg r0 st0 tr s t c s',
+  run sg (init r0 st0) tr = Some s -> (exists x, holding (pcs s x) = true) ->
+  step sg s (EGet t c) = Some s' -> snd (pool_get (pool s)) = false.
+Proof. exact pool_shared. Qed.
+Print Assumptions C14_pool_shared.
+
+(* channel-level DEADLOCK FREEDOM: in every reachable state of the channel-level system in which
+   some caller is inside Do or has not yet called its release function, a step other than a new
+   call / an external tag drop is enabled: a send of complete() that blocks on the full buffer
+   always has a member of the batch ready to receive (counting invariant InvP: members that
+   have not received = sends left + buffered status), and a caller still blocked on the status
+   channel of an earlier batch finds its status there or the channel closed *)
+Theorem C14_fine_no_deadlock : forall sg r0 st0 tr f,
+  frun sg (finit r0 st0) tr = Some f -> (exists t, fholding (f_pcs f t) = true) ->
+  exists e f', fis_env e = false /\ fstep sg f e = Some f'.
+Proof. exact fine_no_deadlock. Qed.
+Print Assumptions C14_fine_no_deadlock.
+
+(* ... and termination: from every reachable state, without new calls, only a bounded number
+   of steps (lock regions, channel operations, HTTP exchanges) can still happen; together with
+   C14_fine_no_deadlock: every call returns and releases its Pool entry *)
+Theorem C14_fine_bounded_completion : forall sg r0 st0 tr f,
+  frun sg (finit r0 st0) tr = Some f ->
+  exists bound, forall tr' f',
+    forallb (fun e => negb (fis_env e)) tr' = true -> frun sg f tr' = Some f' ->
+    (length tr' <= bound)%nat.
+Proof. exact fine_bounded_completion. Qed.
+Print Assumptions C14_fine_bounded_completion.
+
+Theorem C14_fine_counting : forall sg r0 st0 tr f,
+  frun sg (finit r0 st0) tr = Some f -> InvF f /\ InvP f.
+Proof. exact fine_reachable_inv. Qed.
+Print Assumptions C14_fine_counting.
+
 (* ---- the hypotheses are satisfiable: concrete instances ---- *)
 Definition dA := mkDesc 1 7 0. Definition dB := mkDesc 2 0 3. Definition dC := mkDesc 3 0 0.
 
@@ -269,6 +414,46 @@ Example run_ex :
   end.
 Proof. vm_compute. repeat split. Qed.
 
+(* two callers in one batch, the response of the PUT is lost: both get the error, the index
+   contains both changes, the old index is left behind *)
+Example lost_ex :
+  match run false (init (Some [dC]) [[dC]])
+          [EGet 0 (Add dA); EAssign 0; EGet 1 (Add dB); EAssign 1; ERecvMain 0; EPrepare 0 false; ECommit 0;
+           EPutLost 0; EComplete 0; EDone 0; EDone 1]%nat with
+  | Some s => lin s = [0; 1]%nat /\ reg s = Some [dC; dA; dB] /\
+              map (pcs s) [0; 1]%nat = [Done RLost; Done RLost] /\ map seen [RLost; RLost] = [RErr; RErr] /\
+              junk s = [[dC]] /\ dangling s = 1%nat
+  | None => False
+  end.
+Proof. vm_compute. repeat split. Qed.
+
+(* the last referrer is removed: the update is the DELETE of the index; its response is lost *)
+Example lost_del_ex :
+  match run false (init (Some [dA]) [[dA]])
+          [EGet 0 (Remove dA); EAssign 0; ERecvMain 0; EPrepare 0 false; ECommit 0; EDelLost 0; EComplete 0; EDone 0]%nat with
+  | Some s => lin s = [0]%nat /\ reg s = None /\ store s = [] /\ map (pcs s) [0]%nat = [Done RLost]
+  | None => False
+  end.
+Proof. vm_compute. repeat split. Qed.
+
+(* three callers in one batch, the PUT fails: the second error send of complete() blocks on the
+   full buffer until a member receives *)
+Example fine_block_ex :
+  match frun false (finit None [])
+          [FEGet 0 (Add dA); FEAssign 0; FEGet 1 (Add dB); FEAssign 1; FEGet 2 (Add dC); FEAssign 2;
+           FERecv 0; FEPrepare 0 false; FECommit 0; FEPut 0 true; FENotify 0]%nat with
+  | Some f => fstep false f (FENotify 0%nat) = None /\ f_pcs f 0%nat = FNotify RErr 1 /\
+              nwait f = 2%nat /\ fbuf (cur f) = Some (FRes RErr) /\
+              (exists f', frun false f [FERecv 1; FENotify 0; FERecv 2; FENotify 0; FESwap 0; FEDone 0; FEDone 1; FEDone 2]%nat = Some f' /\
+                          f_pool f' = None)
+  | None => False
+  end.
+Proof. vm_compute. repeat split. eexists. split; reflexivity. Qed.
+
+(* Get, Get (shared), release, Get (still shared), release, release, Get (fresh again) *)
+Example pool_ex : pool_trace None [true; true; false; true; false; false; true] = [true; false; false; true].
+Proof. reflexivity. Qed.
+
 Example quiescent_ex : forall s, run false (init None []) ex_trace = Some s -> quiescent s.
 Proof.
   intros s H. vm_compute in H. injection H as <-. intro t.
@@ -291,3 +476,29 @@ Example tracks_ex : tracks (None, []) /\
   fold_left seq_op [Add dA; Add dB; Remove dA; Add dC] (None, []) = (Some [dB; dC], [3; 2]) /\
   forallb (fun k => Bool.eqb (memb (Some [dB; dC]) k) (negb (k =? 0) && existsb (N.eqb k) [3; 2])) [0; 1; 2; 3; 4] = true.
 Proof. split; [intro k; reflexivity|split; vm_compute; reflexivity]. Qed.
+
+(* two pushes and a delete on three different manifests, interleaved, one batch of two *)
+Example live_ex :
+  match lrun false (linit (Some [dA]) [] [1])
+    [LPut 0 dB; LIdx (EGet 1 (Remove dA)); LIdx (EAssign 1); LIdx (EGet 0 (Add dB)); LIdx (EAssign 0);
+     LPut 2 dC; LIdx (ERecvMain 1); LIdx (EPrepare 1 false); LIdx (ECommit 1); LIdx (EGet 2 (Add dC)); LIdx (EAssign 2);
+     LIdx (EPut 1 false); LIdx (EDel 1 false); LIdx (EComplete 1); LIdx (EDone 1); LIdx (EDone 0); LDel 1; LEnd 0;
+     LIdx (ERecvMain 2); LIdx (EPrepare 2 false); LIdx (ECommit 2); LIdx (EPut 2 false); LIdx (EDel 2 false);
+     LIdx (EComplete 2); LIdx (EDone 2); LEnd 2]%nat with
+  | Some m => l_inflight m = [] /\ l_taint m = [] /\ l_live m = [3; 2] /\ reg (l_s m) = Some [dB; dC]
+  | None => False
+  end.
+Proof. vm_compute. repeat split. Qed.
+
+(* channel level, error path with a late receiver: caller 1 receives its status after the main
+   caller 0 has swapped and caller 2 has become the main caller of the next batch *)
+Example fine_ex :
+  match frun false (finit None [])
+    [FEGet 0 (Add dA); FEAssign 0; FERecv 0; FEGet 1 (Add dB); FEAssign 1; FEPrepare 0 false; FECommit 0;
+     FEGet 2 (Add dC); FEAssign 2; FEPut 0 true; FENotify 0; FENotify 0; FESwap 0; FERecv 2; FERecv 1;
+     FEDone 0; FEDone 1; FEPrepare 2 false; FECommit 2; FEPut 2 false; FENotify 2; FESwap 2; FEDone 2]%nat with
+  | Some f => map (f_pcs f) [0; 1; 2]%nat = [FDone RErr; FDone RErr; FDone ROk] /\ f_reg f = Some [dC] /\
+              f_pool f = None /\ f_gen f = 2%nat
+  | None => False
+  end.
+Proof. vm_compute. repeat split. Qed.
